@@ -174,6 +174,17 @@ class Target:
                                   or f == "-g1"] + objs + ["-o", self.path() + ".tmp"] + self.libs
 
 
+def deep(tier, **kw):
+    """Extra monitor arguments for the thorough tier (case counts well above the monitors' built-in thorough defaults);
+    nothing for the quick tier, which C20 also uses for its sanitizer re-runs."""
+    if tier != "thorough":
+        return []
+    out = []
+    for k, v in kw.items():
+        out += ["--" + k, str(v)]
+    return out
+
+
 def parted(name, source, nparts, flavour="plain", **kw):
     """A monitor whose single source is compiled nparts times with -DVERIF_PART=k -DVERIF_PARTS=n."""
     tus = [(source, ("-DVERIF_PART=%d" % k, "-DVERIF_PARTS=%d" % nparts)) for k in range(nparts)]
